@@ -96,6 +96,20 @@ pub fn big_input(kind: &str, n: usize) -> (Vec<String>, Cfg) {
             cfg.verbose = true;
             (0..n).map(|i| format!("K{:x}", i * 40503 % 65521)).collect()
         }
+        "long-class-noend" => {
+            // one long test case + class conversion + end anchor disabled: the internal self-check
+            // has to compile \w x n
+            cfg.words = true;
+            cfg.no_end = true;
+            vec!["ab".repeat(n / 2)]
+        }
+        "long-class-noanchors-r" => {
+            cfg.digits = true;
+            cfg.repetitions = true;
+            cfg.no_start = true;
+            cfg.no_end = true;
+            vec!["7".repeat(n), format!("{}x", "7".repeat(n / 2))]
+        }
         "noanchors" => {
             cfg.no_start = true;
             cfg.no_end = true;
@@ -230,8 +244,8 @@ fn run(ctx: &mut Ctx) {
     // large inputs
     if ctx.failures.is_empty() {
         let sizes: Vec<(&str, usize)> = match ctx.tier {
-            Tier::Quick => vec![("chain", 120), ("long2", 300), ("periodic", 120), ("many", 1500), ("many-i-x", 600), ("noanchors", 300)],
-            Tier::Thorough => vec![("chain", 120), ("chain", 1000), ("long2", 2000), ("periodic", 600), ("many", 5000), ("many-i-x", 3000), ("noanchors", 2000)],
+            Tier::Quick => vec![("chain", 120), ("long2", 300), ("periodic", 120), ("many", 1500), ("many-i-x", 600), ("noanchors", 300), ("long-class-noend", 1400), ("long-class-noanchors-r", 1400)],
+            Tier::Thorough => vec![("chain", 120), ("chain", 1000), ("long2", 2000), ("periodic", 600), ("many", 5000), ("many-i-x", 3000), ("noanchors", 2000), ("long-class-noend", 1400), ("long-class-noend", 4000), ("long-class-noanchors-r", 3000)],
         };
         let timeout = Duration::from_secs(ctx.tier.pick(60, 600));
         let results: Vec<(Stats, Result<(), String>, (&str, usize))> = std::thread::scope(|s| {
